@@ -37,6 +37,8 @@ def shards(tier, seed):
         for i in range(8):
             out.append({"id": "sched1-%d" % i, "kind": "sched1", "pairs": pairs[i::8], "maxpoints": 260})
         out.append({"id": "sched2", "kind": "sched2", "pairs": fixed[:4], "stride": 16})
+        for i in range(4):
+            out.append({"id": "sched-data-%d" % i, "kind": "sched1", "pairs": DATA_PAIRS[i::4], "maxpoints": 200})
         cold = [("ExtendedCopy5", "ExtendedCopy5"), ("ExtendedCopy4", "ExtendedCopy4"), ("PersistentReserveOut", "PersistentReserveOut"),
                 ("Inquiry", "Read10"), ("ModeSelect10", "ModeSense10"), ("ReadElementStatus", "ReadElementStatus")]
         for i in range(3):
@@ -60,6 +62,14 @@ def shards(tier, seed):
                ("PreventAllowMediumRemoval", "Read16"), ("InitializeElementStatusWithRange", "OpenCloseImportExportElement")]
         for i in range(0, 24, 2):
             out.append({"id": "sched2-%d" % i, "kind": "sched2", "pairs": rep[i:i + 2], "stride": 4})
+        from vmon.spec import datain as D
+
+        fmts = ["data:" + n for n in D.FORMATS]
+        custom = ["ExtendedCopy4+id", "ExtendedCopy5+id", "PersistentReserveOut", "ModeSelect6", "ModeSelect10", "Inquiry", "ReadElementStatus"]
+        dpairs = [(a, b) for a in custom for b in fmts] + [(b, a) for a in custom for b in fmts] + [(a, b) for a in fmts for b in fmts if a <= b]
+        for i in range(16):
+            out.append({"id": "sched-data-%d" % i, "kind": "sched1", "pairs": dpairs[i::16], "maxpoints": 400})
+        out.append({"id": "sched2-data", "kind": "sched2", "pairs": [("ExtendedCopy5+id", "ExtendedCopy5+id"), ("ExtendedCopy5+id", "data:inquiry.vpd83")], "stride": 6})
         for i in range(8):
             out.append({"id": "sched-rand-%d" % i, "kind": "schedrand", "n": 2500})
         out.append({"id": "stress", "kind": "stress", "n": 100000})
@@ -118,6 +128,58 @@ def layout_of(c):
     return tuple(sorted((k, tuple(v)) for k, v in c.load()._cdb_bits.items()))
 
 
+DATA_PAIRS = [("ExtendedCopy5+id", "data:inquiry.vpd83"), ("data:inquiry.vpd83", "ExtendedCopy5+id"), ("ExtendedCopy4+id", "data:inquiry.vpd83"),
+              ("data:inquiry.vpd83", "ExtendedCopy4+id"), ("PersistentReserveOut", "data:prin.readfullstatus"), ("data:prin.readfullstatus", "PersistentReserveOut"),
+              ("ModeSelect10", "data:modesense10"), ("ModeSelect6", "data:modesense6"), ("data:inquiry.vpd83", "data:inquiry.vpd83"),
+              ("data:readelementstatus", "data:reporttargetportgroups"), ("data:inquiry.standard", "data:inquiry.vpd86"), ("Inquiry", "data:inquiry.vpd83")]
+
+
+def data_program(fname):
+    """a thread that works on device data of its own: decode a fixed well-formed response, build it again"""
+    import copy
+
+    from vmon.spec import datain as D
+
+    f = D.FORMATS[fname]
+    rng = random.Random("c09data:%s" % fname)
+    v = f.gen(rng, ("count", 3) if fname in ("inquiry.vpd83", "prin.readfullstatus") else "rand")
+    b = bytes(f.encode(v))
+    kw = f.decode_kwargs(v)
+
+    def prog():
+        cls = f.lib_cls()
+        r = cls.unmarshall_datain(bytearray(b), **kw)
+        out = [repr(r)]
+        if f.builder:
+            try:
+                out.append(bytes(f.lib_build(copy.deepcopy(r))))
+            except Exception as e:  # noqa: BLE001
+                out.append("build raises %s" % type(e).__name__)
+        # same tuple shape as observe(): (cdb, datain_len, dataout, decode, encode)
+        return (b"", 0, b"", out[0], out[1] if len(out) > 1 else b"")
+
+    return prog
+
+
+def program(S, name, args):
+    if name.startswith("data:"):
+        return data_program(name[5:])
+    c = S.COMMANDS[name.split("+")[0]]
+    return lambda: observe(c, args[name])[1]
+
+
+def add_extra_programs(S, base, args, names):
+    for name in names:
+        if name in base:
+            continue
+        if not name.startswith("data:"):
+            args[name] = fixed_args(S.COMMANDS[name.split("+")[0]], 100)
+        try:
+            base[name] = program(S, name, args)()
+        except Exception:  # noqa: BLE001
+            base[name] = None
+
+
 def run(shard, ctx):
     from vmon.spec import cdb as S
 
@@ -152,6 +214,7 @@ def run(shard, ctx):
     elif kind == "alias":
         alias_checks(ctx, S)
     elif kind in ("sched1", "sched2", "schedrand"):
+        add_extra_programs(S, base, args, sorted({x for pr in shard.get("pairs", []) for x in pr if x not in base}))
         sched_runs(ctx, S, shard, base, args)
     elif kind == "stress":
         stress(ctx, S, shard, base, args)
@@ -318,6 +381,21 @@ def alias_checks(ctx, S):
                 ctx.fail("C09:reuse.first_command_changed", "%s: building a second command from the same arguments changed the first" % name, {"cmd": name, "args": pristine})
             if (bytes(c2.cdb), bytes(c2.dataout)) != (bytes(ref.cdb), bytes(ref.dataout)):
                 ctx.fail("C09:reuse.second_command_differs", "%s: second command from the same arguments differs from one built from a fresh copy" % name, {"cmd": name, "args": pristine})
+            # the caller changes values *inside* its long-lived descriptors and sends the next command
+            try:
+                donor, _ = DO.GEN[c.custom](rng)
+                if i % 2:
+                    donor = to_bytearrays(donor)
+                changed = graft(a, donor, 0)
+                if changed:
+                    ctx.count("reuse_after_nested_change")
+                    want = harness.construct(c, c.sets[0], copy.deepcopy(a))
+                    c3 = harness.construct(c, c.sets[0], a)
+                    if (bytes(c3.cdb), bytes(c3.dataout)) != (bytes(want.cdb), bytes(want.dataout)):
+                        ctx.fail("C09:reuse.stale_after_nested_change", "%s: after values inside the reused argument dictionaries were changed in place, the next command "
+                                 "differs from one built from a fresh copy of the same arguments" % name, {"cmd": name, "args": copy.deepcopy(a), "changed_leaves": changed})
+            except Exception as e:  # noqa: BLE001
+                ctx.fail("C09:reuse.raises.%s" % type(e).__name__, "%s built from reused dictionaries after an in-place change raised %s" % (name, e), {"cmd": name}, exc=e)
             if c1.dataout is c2.dataout and len(c1.dataout):
                 ctx.fail("C09:reuse.buffers_shared", "%s: two commands share one dataout object" % name, {"cmd": name})
             # mutating one command's buffer must not affect the other
@@ -358,6 +436,33 @@ def alias_checks(ctx, S):
             ctx.count("repeat_marshall_calls")
             if not (b1 == b2 == b3):
                 ctx.fail("C09:marshalling_not_repeatable.%s" % fname, "%s.marshall_datain with equal inputs gave different bytes" % fname, {"format": fname})
+
+
+STRUCTURAL = ("type", "code", "length", "format", "association", "protocol", "naa", "piv", "spf", "page", "lu_id", "nul", "pad", "cat")
+
+
+def graft(dst, src, depth):
+    """copy leaf values of src into the *same container objects* of dst where both trees have the same shape; only below the top
+    level, never values that select a structure.  Returns the number of leaves changed."""
+    n = 0
+    if isinstance(dst, dict) and isinstance(src, dict):
+        for k in list(dst):
+            if k not in src:
+                continue
+            x, y = dst[k], src[k]
+            if isinstance(x, (dict, list)) and type(x) is type(y):
+                n += graft(x, y, depth + 1)
+            elif depth >= 2 and isinstance(x, int) and not isinstance(x, bool) and isinstance(y, int) and x != y and not any(t in k for t in STRUCTURAL):
+                dst[k] = y
+                n += 1
+            elif depth >= 2 and isinstance(x, bytearray) and isinstance(y, (bytes, bytearray)) and len(x) == len(y) and x != y:
+                x[:] = y  # the bytes of the caller's own buffer
+                n += 1
+    elif isinstance(dst, list) and isinstance(src, list):
+        for x, y in zip(dst, src):
+            if isinstance(x, dict) and isinstance(y, dict) and set(x) == set(y) and all(x.get(k) == y.get(k) for k in x if any(t in k for t in STRUCTURAL) and not isinstance(x.get(k), (dict, list))):
+                n += graft(x, y, depth + 1)
+    return n
 
 
 def to_bytearrays(x):
@@ -412,15 +517,14 @@ def sched_runs(ctx, S, shard, base, args):
 
 
 def one_schedule(ctx, S, sch, progs, sched, base, args, count=True):
-    cs = [S.COMMANDS[x] for x in progs]
-    programs = [(lambda c=c, x=x: observe(c, args[x])[1]) for c, x in zip(cs, progs)]
+    programs = [program(S, x, args) for x in progs]
     r = sch.run(programs, sched)
     wit = {"programs": list(progs), "schedule": {str(k): v for k, v in sorted(sched.items())}}
     if r["hung"]:
         ctx.inconclusive_because("scheduler watchdog fired for %r" % wit)
         return r
     if count:
-        different = len({layout_of(c) for c in cs}) > 1
+        different = any(x.startswith("data:") for x in progs) or len({layout_of(S.COMMANDS[x.split("+")[0]]) for x in progs}) > 1
         ctx.case(("sched", tuple(progs), tuple(sorted(sched.items()))), different and r["interleaved"],
                  sample=dict(wit, steps=r["steps"], switches=r["switches"]) if ctx.want_sample() else None)
         ctx.count("scheduled_runs")
@@ -548,6 +652,7 @@ def replay(rec, ctx):
         from vmon.mon.sched import Scheduler
 
         sch = Scheduler()
+        add_extra_programs(S, base, args, [x for x in w["programs"] if x not in base])
         try:
             one_schedule(ctx, S, sch, w["programs"], {int(k): v for k, v in w["schedule"].items()}, base, args)
         finally:
